@@ -212,6 +212,91 @@ theorem selectors_are_normalised (bad : List Bytes) (argv : List Bytes) (o : Cli
     · cases h
     · cases h
 
+
+/-- `--no-data`, once read, stays -/
+theorem noData_sticky (bad : List Bytes) (args : List Bytes) (s o : CliOpts)
+    (h : loop bad args s = .ok o) (hs : s.noData = true) : o.noData = true := by
+  refine loop_inv bad (fun s => s.noData = true) ?_ ?_ ?_ args s o h hs
+  · intro f hf s s' hr hp
+    simp only [flags0, List.mem_cons, List.mem_nil_iff, or_false] at hf
+    obtain rfl | rfl | rfl | rfl | rfl | rfl | rfl | rfl | rfl | rfl | rfl | rfl | rfl | rfl | rfl | rfl | rfl | rfl | rfl | rfl | rfl | rfl | rfl | rfl | rfl | rfl | rfl | rfl | rfl | rfl := hf <;> first | (cases hr; simpa using hp) | cases hr
+  · intro f hf v s s' hr hp
+    simp only [flags1, List.mem_cons, List.mem_nil_iff, or_false] at hf
+    obtain rfl | rfl | rfl | rfl | rfl | rfl | rfl | rfl | rfl | rfl | rfl | rfl | rfl | rfl | rfl | rfl | rfl | rfl | rfl | rfl | rfl | rfl | rfl | rfl | rfl | rfl | rfl | rfl | rfl | rfl | rfl | rfl | rfl | rfl | rfl | rfl | rfl | rfl | rfl := hf <;> cli_arm hr <;> first | (simpa using hp) | simp
+  · intro s c hp; simpa using hp
+
+/-- a `--replace-text` file, once named, stays named (a later one replaces it, none removes it) -/
+theorem replaceText_sticky (bad : List Bytes) (args : List Bytes) (s o : CliOpts)
+    (h : loop bad args s = .ok o) (hs : s.replaceText.isSome = true) : o.replaceText.isSome = true := by
+  refine loop_inv bad (fun s => s.replaceText.isSome = true) ?_ ?_ ?_ args s o h hs
+  · intro f hf s s' hr hp
+    simp only [flags0, List.mem_cons, List.mem_nil_iff, or_false] at hf
+    obtain rfl | rfl | rfl | rfl | rfl | rfl | rfl | rfl | rfl | rfl | rfl | rfl | rfl | rfl | rfl | rfl | rfl | rfl | rfl | rfl | rfl | rfl | rfl | rfl | rfl | rfl | rfl | rfl | rfl | rfl := hf <;> first | (cases hr; simpa using hp) | cases hr
+  · intro f hf v s s' hr hp
+    simp only [flags1, List.mem_cons, List.mem_nil_iff, or_false] at hf
+    obtain rfl | rfl | rfl | rfl | rfl | rfl | rfl | rfl | rfl | rfl | rfl | rfl | rfl | rfl | rfl | rfl | rfl | rfl | rfl | rfl | rfl | rfl | rfl | rfl | rfl | rfl | rfl | rfl | rfl | rfl | rfl | rfl | rfl | rfl | rfl | rfl | rfl | rfl | rfl := hf <;> cli_arm hr <;> first | (simpa using hp) | simp
+  · intro s c hp; simpa using hp
+
+/-- `--sensitive`, once read, stays -/
+theorem sensitive_sticky (bad : List Bytes) (args : List Bytes) (s o : CliOpts)
+    (h : loop bad args s = .ok o) (hs : s.sensitive = true) : o.sensitive = true := by
+  refine loop_inv bad (fun s => s.sensitive = true) ?_ ?_ ?_ args s o h hs
+  · intro f hf s s' hr hp
+    simp only [flags0, List.mem_cons, List.mem_nil_iff, or_false] at hf
+    obtain rfl | rfl | rfl | rfl | rfl | rfl | rfl | rfl | rfl | rfl | rfl | rfl | rfl | rfl | rfl | rfl | rfl | rfl | rfl | rfl | rfl | rfl | rfl | rfl | rfl | rfl | rfl | rfl | rfl | rfl := hf <;> first | (cases hr; simpa using hp) | cases hr
+  · intro f hf v s s' hr hp
+    simp only [flags1, List.mem_cons, List.mem_nil_iff, or_false] at hf
+    obtain rfl | rfl | rfl | rfl | rfl | rfl | rfl | rfl | rfl | rfl | rfl | rfl | rfl | rfl | rfl | rfl | rfl | rfl | rfl | rfl | rfl | rfl | rfl | rfl | rfl | rfl | rfl | rfl | rfl | rfl | rfl | rfl | rfl | rfl | rfl | rfl | rfl | rfl | rfl := hf <;> cli_arm hr <;> first | (simpa using hp) | simp
+  · intro s c hp; simpa using hp
+
+/-- `--backup`, once read, stays -/
+theorem backup_sticky (bad : List Bytes) (args : List Bytes) (s o : CliOpts)
+    (h : loop bad args s = .ok o) (hs : s.backup = true) : o.backup = true := by
+  refine loop_inv bad (fun s => s.backup = true) ?_ ?_ ?_ args s o h hs
+  · intro f hf s s' hr hp
+    simp only [flags0, List.mem_cons, List.mem_nil_iff, or_false] at hf
+    obtain rfl | rfl | rfl | rfl | rfl | rfl | rfl | rfl | rfl | rfl | rfl | rfl | rfl | rfl | rfl | rfl | rfl | rfl | rfl | rfl | rfl | rfl | rfl | rfl | rfl | rfl | rfl | rfl | rfl | rfl := hf <;> first | (cases hr; simpa using hp) | cases hr
+  · intro f hf v s s' hr hp
+    simp only [flags1, List.mem_cons, List.mem_nil_iff, or_false] at hf
+    obtain rfl | rfl | rfl | rfl | rfl | rfl | rfl | rfl | rfl | rfl | rfl | rfl | rfl | rfl | rfl | rfl | rfl | rfl | rfl | rfl | rfl | rfl | rfl | rfl | rfl | rfl | rfl | rfl | rfl | rfl | rfl | rfl | rfl | rfl | rfl | rfl | rfl | rfl | rfl := hf <;> cli_arm hr <;> first | (simpa using hp) | simp
+  · intro s c hp; simpa using hp
+
+/-- `--config` handling leaves a line that starts with another word starting with that word -/
+theorem stripConfig_cons (a : Bytes) (rest : List Bytes) (h1 : (a == b!"--config") = false)
+    (h2 : startsWith a b!"--config=" = false) :
+    stripConfig (a :: rest) = (stripConfig rest).map fun (l, c) => (a :: l, c) := by
+  cases rest with
+  | nil => simp [stripConfig, h1, h2]
+  | cons b r => simp [stripConfig, h1, h2]
+
+/-- **A command line that starts with `--dry-run` is a dry run**, whatever follows (if it is accepted at all). -/
+theorem dry_run_first (bad argv : List Bytes) (o : CliOpts)
+    (h : parseArgs bad (b!"--dry-run" :: argv) = .ok o) : o.dryRun = true := by
+  unfold parseArgs at h
+  rw [stripConfig_cons _ _ (by decide) (by decide)] at h
+  cases hs : stripConfig argv with
+  | none => simp [hs] at h
+  | some p =>
+    obtain ⟨args, c⟩ := p
+    simp only [hs, Option.map_some] at h
+    have hf1 : find1 bad b!"--dry-run" = none := by
+      simp [find1, flags1, legacyThreshold, List.find?]
+    have hf0 : ∃ f, find0 b!"--dry-run" = some f ∧ f.needsDebug = false ∧ ∀ s, f.run s = .cont { s with dryRun := true } := by
+      refine ⟨{ name := b!"--dry-run", run := fun s => .cont { s with dryRun := true } }, ?_, rfl, fun _ => rfl⟩
+      simp [find0, flags0, List.find?]
+    obtain ⟨f, hf, hnd, hrun⟩ := hf0
+    unfold loop at h
+    simp only [hf1, hf, hnd, hrun, Bool.false_and, Bool.false_eq_true, if_false] at h
+    split at h
+    · rename_i s hl
+      have := dryRun_sticky bad args _ s hl rfl
+      split at h
+      · cases h
+      · cases h
+        unfold defaultCleanup; split <;> simpa using this
+    · cases h
+    · cases h
+
 /-! ### non-vacuity and examples (evaluated by the kernel) -/
 
 def okOf : Outcome → Option CliOpts
